@@ -294,6 +294,10 @@ func initModels() {
 		st.heapSet("T|now", "Int", n)
 		return mkInt(n, rt)
 	}}
+	models["(time.Duration).Seconds"] = &model{apply: func(fx *FnCtx, st *State, cc *ssa.CallCommon, fnv *Val, args []*Val, rt types.Type) *Val {
+		fx.sol.Declare("dur_seconds", "(declare-fun dur_seconds (Int) Int)")
+		return mkInt("(dur_seconds "+args[0].S+")", rt)
+	}}
 	models["(time.Time).Unix"] = &model{apply: func(fx *FnCtx, st *State, cc *ssa.CallCommon, fnv *Val, args []*Val, rt types.Type) *Val {
 		return mkInt(tDivE(args[0].S, "1000000000"), rt)
 	}}
